@@ -4,7 +4,9 @@ id=$1; patch=$2; shift 2
 git -C /repo apply "$patch" || exit 9
 if git -C /repo diff --name-only | grep -q '_fjcore.c'; then (cd /repo && /venv/bin/python build_fjcore.py >/dev/null 2>&1); fi
 (cd /verif && ./check "$id" "$@"); rc=$?
+changed_c=$(git -C /repo diff --name-only | grep -c '_fjcore.c')
 git -C /repo checkout -- .
+if [ "$changed_c" != "0" ]; then (cd /repo && /venv/bin/python build_fjcore.py >/dev/null 2>&1); fi
 if git -C /repo status --short | grep -q .; then :; fi
 echo "exit=$rc"
 exit $rc
